@@ -142,7 +142,10 @@ func wrap(t *rt.Thread, c *rt.GoCont) (rt.Cont, error) {
 	w := rt.NewGoFunction(func(t *rt.Thread, c *rt.GoCont) (rt.Cont, error) {
 		res, err := co.Resume(t, c.Etc())
 		if err != nil {
-			return nil, err
+			// The error was dealt with in the coroutine: propagating it means
+			// raising it anew in the calling thread (where a message handler
+			// may be installed).
+			return nil, rt.NewError(rt.ErrorValue(err))
 		}
 		return c.PushingNext(t.Runtime, res...), nil
 	}, "wrap", 0, true)
